@@ -92,4 +92,42 @@ example : ∃ (h : H EMode) (modes : Store) (active : Nat), active < h.next ∧ 
   ⟨{ cells := fun x => if x = 1 then ⟨"a", "A", "desc", 0⟩ else ⟨"", "", "", 0⟩, next := 2 }, [("a", 1)], 0,
     by decide, by simp [find], by decide, by decide, by simp [changeActive, find, valueSet, H.alloc, H.set]⟩
 
+/-- **C07_set_active_mode_frame** (round 8). `Model.SetActiveMode(mode)`, the exported entry point that hands the
+caller's own message to the write: for every merge function (any writable-fields configuration), every way of reading
+an id, heap, modes collection, active mode and caller message: (1) of the messages that existed only the caller's own
+is written (the in-place filter of the write) — no stored mode, not the old active mode; (2) an unknown id changes
+nothing at all; (3) the new active mode is a message allocated by the call. -/
+theorem C07_set_active_mode_frame {M : Type} (idOf : M → String) (merge : M → M → M × M) (h : H M) (modes : Store)
+    (active src : Nat) :
+    (∀ x, x < h.next → x ≠ src → (setActive idOf merge h modes active src).heap.cells x = h.cells x) ∧
+    (find modes (idOf (h.cells src)) = none → (setActive idOf merge h modes active src).heap = h ∧
+      (setActive idOf merge h modes active src).active = active ∧
+      (setActive idOf merge h modes active src).result = none) ∧
+    (∀ d, (setActive idOf merge h modes active src).result = some d →
+      h.next ≤ d ∧ d < (setActive idOf merge h modes active src).heap.next ∧
+      (setActive idOf merge h modes active src).active = d) := by
+  cases hf : find modes (idOf (h.cells src)) with
+  | none => simp [setActive, hf]
+  | some r =>
+    refine ⟨fun x hx hne => ?_, fun h0 => by simp at h0, fun d hd => ?_⟩
+    · have h1 : x ≠ h.next := Nat.ne_of_lt hx
+      simp [setActive, hf, valueSet, H.alloc, H.set, h1, hne]
+    · simp [setActive, hf, valueSet, H.alloc, H.set] at hd
+      subst hd
+      simp [setActive, hf, valueSet, H.alloc, H.set]
+
+/-- the shape of seeded change C07-20 (the caller's start time written onto the looked-up mode before a clone of it
+is activated): without any writable fields configured, `SetActiveMode({id: "a", start: 9})` gives the STORED mode
+"a" — a message the modes collection, every reader and every subscriber holds — a start time; the code as it is
+leaves it alone and produces the same active mode here -/
+theorem C07_set_active_mode_known_writes_stored_mode :
+    ∃ (h : H EMode) (modes : Store) (active src r : Nat), active < h.next ∧ src < h.next ∧ r < h.next ∧ r ≠ src ∧
+      find modes "a" = some r ∧
+      (setActiveKnown (·.id) (fun k s => { k with start := s.start }) (mergeE none) h modes active src).heap.cells r ≠ h.cells r ∧
+      (setActive (·.id) (mergeE none) h modes active src).heap.cells r = h.cells r :=
+  ⟨{ cells := fun x => if x = 1 then ⟨"a", "A", "desc", 0⟩ else if x = 2 then ⟨"a", "", "", 9⟩ else ⟨"", "", "", 0⟩, next := 3 },
+    [("a", 1)], 0, 2, 1, by decide, by decide, by decide, by decide, by simp [find], by
+      simp [setActiveKnown, find, valueSet, H.alloc, H.set, mergeE], by
+      simp [setActive, find, valueSet, H.alloc, H.set, mergeE]⟩
+
 end ScVerif.C07.Rim5
